@@ -779,7 +779,7 @@ def pipeline_plan(pid, tier):
             plan.append(("%s_tr" % kind, kind,
                          dict(maxcalls=1, maxtrans=2, means=("const", "call") if not thorough else ("none", "const", "call"),
                               trends=("none", "call") if not thorough else ("none", "const", "call"),
-                              meshes=both if thorough else (("unstructured",) if kind == "Field" else ("structured",)),
+                              meshes=("unstructured",) if kind == "Field" else ("structured",),
                               m1=two, m2=two), 3, "transforms"))
     return plan
 
